@@ -52,9 +52,9 @@ def build_lib(log=None):
         os.utime(d, None)
         return d
     os.makedirs(CACHE, exist_ok=True)
-    # keep the cache small: only the three most recently used trees survive
+    # keep the cache small: only the eight most recently used trees survive
     olds = sorted(glob.glob(os.path.join(CACHE, "lib-*")), key=os.path.getmtime, reverse=True)
-    for old in olds[3:]:
+    for old in olds[8:]:
         shutil.rmtree(old, ignore_errors=True)
         shutil.rmtree(os.path.join(CACHE, "drv-" + os.path.basename(old)[4:]), ignore_errors=True)
     tmp = tempfile.mkdtemp(prefix="rapverif-")
